@@ -7,6 +7,7 @@ import (
 
 	"github.com/scrapli/scrapligo/response"
 	"github.com/scrapli/scrapligo/util"
+	"github.com/scrapli/scrapligo/util/simhook"
 )
 
 func (d *Driver) buildRPCElem(
@@ -69,6 +70,8 @@ func (d *Driver) sendRPC(
 	defer cancel()
 
 	go func() {
+		simhook.Enter("nc.rpc.poll")
+
 		defer close(done)
 
 		var data []byte
@@ -78,6 +81,8 @@ func (d *Driver) sendRPC(
 				// timer expired, we're already done, nobody will be listening for our send anyway
 				return
 			}
+
+			simhook.Yield("nc.rpc.poll")
 
 			data = d.getMessage(m.MessageID)
 			if data != nil {
@@ -91,6 +96,8 @@ func (d *Driver) sendRPC(
 	}()
 
 	timer := time.NewTimer(d.Channel.GetTimeout(op.Timeout))
+
+	simhook.Yield("nc.rpc.wait")
 
 	select {
 	case err = <-d.errs:
